@@ -414,6 +414,14 @@ fn e(x: DbError) -> String {
 
 /// Reads everything observable. Err = some read that must succeed failed.
 pub fn dump(db: &dyn DbLike, with_searches: bool) -> Result<Dump, String> {
+    // reads run under the probe budget too (a corrupted edge list must not hang the harness)
+    agdb::verif::set_probe_budget(PROBE_BUDGET * 10);
+    let r = dump_inner(db, with_searches);
+    agdb::verif::set_probe_budget(u64::MAX);
+    r
+}
+
+fn dump_inner(db: &dyn DbLike, with_searches: bool) -> Result<Dump, String> {
     let mut d = Dump { node_count: db.r(&RQ::NodeCount(QueryBuilder::select().node_count().query())).map_err(|x| format!("node_count: {}", e(x)))?.result, ..Default::default() };
     let all = db.r(&RQ::Search(QueryBuilder::search().elements().query())).map_err(|x| format!("search elements: {}", e(x)))?;
     let ids = ids_of(&all);
